@@ -341,6 +341,11 @@ def impl(c):
         return [0, ax]
     ks = c["payload"][3]
     res = []
+    # the order in which CPython iterates the L-sets (a hashing artefact): the order parameter of the mirror
+    from preflibtools.properties.subdomains.ordinal.singlepeaked.k_alternative_deletion import get_L_sets
+    uv = [vote for vote, _ in inst().flatten_strict()]
+    Lsets = get_L_sets(list(alts), uv)
+    hint = [int(a) for j in sorted(Lsets) for a in Lsets[j]]
     for k in ks:
         r = guarded(KP.k_alternative_partition_brut_force, inst(), k)
         if r[0] != 0:
@@ -352,7 +357,7 @@ def impl(c):
             if ax is None:
                 return {"crash": "k_alternative_partition_brut_force(k=%d) returned %r" % (k, r[1])}
             res.append([k, [ax]])
-    return [0, res]
+    return [0, res, hint]
 
 
 def oracle_requests(c, r):
@@ -365,8 +370,13 @@ def oracle_requests(c, r):
         if okr:
             reqs.append(("c18.check", [alts, rankings, r[1]]))
         return reqs
+    if c["op"] == "c18.algo":
+        if okr:
+            reqs.append(("c18.bf_algo", [alts, rankings, [k for k, _ in r[1]], r[2]]))
+        return reqs
     if okr:
         reqs.append(("c18.bf", [alts, rankings, r[1]]))
+        reqs.append(("c18.bf_algo", [alts, rankings, [k for k, _ in r[1]], r[2]]))
         seen = []
         for k, opt in r[1]:
             if opt and opt[0] not in seen:
@@ -394,12 +404,14 @@ def judge(c, r, mres):
                     "reason": "model: checker accepts %d axes but min_partition = %d (contradicts check_valid_bound)"
                               % (len(r[1]), mn)}
         return None
+    if c["op"] == "c18.algo":
+        return judge_mirror(r, mres[0])
     mn, oks = mres[0]
     seen, chk = [], {}
     for k, opt in r[1]:
         if opt and opt[0] not in seen:
             seen.append(opt[0])
-            chk[len(seen) - 1] = mres[len(seen)]
+            chk[len(seen) - 1] = mres[1 + len(seen)]
     for (k, opt), okk in zip(r[1], oks):
         if okk == 1:
             continue
@@ -418,10 +430,30 @@ def judge(c, r, mres):
                           % (k, why, mn)}
     if len(oks) != len(r[1]):
         return {"kind": "broken-correspondence", "reason": "model answered %d verdicts for %d calls" % (len(oks), len(r[1]))}
+    return judge_mirror(r, mres[1])
+
+
+def judge_mirror(r, algo):
+    """the implementation and the mirror bf_algo (Model/PartitionAlgo.v; bf_sound / bf_complete_min talk about it) agree
+    on None-ness and on the number of axes for every k; which partition is returned is only counted (stats)"""
+    if len(algo) != len(r[1]):
+        return {"kind": "broken-correspondence", "reason": "mirror answered %d results for %d calls" % (len(algo), len(r[1]))}
+    for (k, opt), a in zip(r[1], algo):
+        if bool(opt) != bool(a) or (opt and len(opt[0]) != len(a[0])):
+            return {"kind": "mismatch", "theorem": "bf_sound / bf_complete_min (mirror Model/PartitionAlgo.v)",
+                    "reason": "k_alternative_partition_brut_force(instance, k=%d) returned %s but its mirror bf_algo returns %s"
+                              % (k, ("%d axes %r" % (len(opt[0]), opt[0])) if opt else "None",
+                                 ("%d axes %r" % (len(a[0]), a[0])) if a else "None")}
     return None
 
 
+def mirror_exact(r, algo):
+    return all((not opt and not a) or (opt and a and opt[0] == a[0]) for (k, opt), a in zip(r[1], algo))
+
+
 def _opt(c, r, m):
+    if c["op"] == "c18.algo":
+        return None
     if c["op"] == "c18.approx":
         return m[0] if c["payload"][3] == 1 and m else None
     if m and isinstance(m[0], list):
@@ -431,6 +463,8 @@ def _opt(c, r, m):
 
 def nontrivial(c, r, m):
     mn = _opt(c, r, m)
+    if c["op"] == "c18.algo":
+        return isinstance(r, list) and r[0] == 0 and any(opt and len(opt[0]) >= 2 for k, opt in r[1])
     if mn is None:      # large approx case: no reference; count it when more than one axis came back
         return isinstance(r, list) and r[0] == 0 and len(r[1]) >= 2
     return mn >= 2
@@ -443,6 +477,13 @@ def stats(c, r, m):
     lab = []
     mn = _opt(c, r, m)
     okr = isinstance(r, list) and r[0] == 0
+    if c["op"] == "c18.algo":
+        lab.append("algo-only %s" % size)
+        if okr and m:
+            lab.append("mirror: same partition for every k" if mirror_exact(r, m[0]) else "mirror: same size, other partition")
+            lab.extend(["algo-only answer None"] * sum(1 for k, opt in r[1] if not opt))
+            lab.extend(["algo-only answer %d axes" % len(opt[0]) for k, opt in r[1] if opt][:1])
+        return lab
     if c["op"] == "c18.approx":
         lab.append("approx %s" % size)
         if okr:
@@ -461,6 +502,8 @@ def stats(c, r, m):
                 lab.append("bf optimum = ceil(m/2)")
                 if mm % 2:
                     lab.append("bf optimum = (m+1)/2, m odd (defect 07cd506 region)")
+        if okr and len(m) > 1 and isinstance(m[1], list):
+            lab.append("mirror: same partition for every k" if mirror_exact(r, m[1]) else "mirror: same size, other partition")
         if okr:
             nn = sum(1 for k, opt in r[1] if not opt)
             lab.extend(["bf answer None"] * nn)
@@ -476,7 +519,8 @@ def stats(c, r, m):
 
 def describe(c):
     alts, rankings, mults = c["payload"][0], c["payload"][1], c["payload"][2]
-    d = {"function": "k_alt_partition_approx" if c["op"] == "c18.approx" else "k_alternative_partition_brut_force",
+    d = {"function": "k_alt_partition_approx" if c["op"] == "c18.approx" else "k_alternative_partition_brut_force"
+                     + (" (mirror only)" if c["op"] == "c18.algo" else ""),
          "alternatives": alts, "orders (best first)": rankings, "multiplicities": mults}
     if c["op"] == "c18.bf":
         d["k values"] = c["payload"][3]
@@ -485,7 +529,7 @@ def describe(c):
 
 def shrink(c):
     alts, rankings, mults, last = c["payload"]
-    if c["op"] == "c18.bf" and len(last) > 1:
+    if c["op"] in ("c18.bf", "c18.algo") and len(last) > 1:
         for k in last:
             yield dict(c, payload=[alts, rankings, mults, [k]])
     if len(rankings) > 1:
